@@ -71,7 +71,7 @@ static void c9_define(Buf *b) {
     uint32_t ah = chance(70) ? RH_OWNER : RH_PLATFORM; uint16_t alg = c10_algs[rnd(4)], size; int t;
     uint32_t attrs = c9_randattrs(&t, alg, &size, ah);
     int adsz = alg == ALG_SHA1 ? 20 : alg == ALG_SHA256 ? 32 : alg == 0x000C ? 48 : 64;
-    char auth[72]; int al = chance(88) ? rnd(5) : adsz - 1 + rnd(3);   /* sometimes exactly as long as the name algorithm's digest, one less, one more */
+    char auth[72]; int al = chance(80) ? rnd(5) : (int[]){adsz, adsz, adsz - 1, adsz + 1}[rnd(4)];   /* sometimes exactly as long as the name algorithm's digest, one less, one more */
     for (int q = 0; q < al; q++) auth[q] = 'a' + rnd(26); auth[al] = 0;
     uint8_t pol[64]; int pl = chance(25) ? (alg == ALG_SHA1 ? 20 : alg == ALG_SHA256 ? 32 : alg == 0x000C ? 48 : 64) : 0; if (pl && chance(10)) pl--; for (int q = 0; q < pl; q++) pol[q] = rnd(256);
     cmd_begin(b, ST_SESSIONS, CC_NV_DefineSpace); b_u32(b, ah); auth_pw(b, "", 0); b_2b(b, auth, al);
